@@ -340,6 +340,44 @@ def run_hook_cover(ctx, n):
                          note="units hooked by GradSampleModule (module order; parameters by named_parameters index) differ from HookCover.units")
 
 
+def run_attention_and_rnn(ctx, n):
+    """dedicated share of the micro-batch oracle for the layers whose batch handling is the most intricate:
+    multi-head attention (several heads, batch > 1, per-sample key-padding masks, bias_kv / zero_attn) and
+    bidirectional multi-layer DP RNNs – these are rare in the uniform architecture draw"""
+    rng = ctx.rng
+    for i in range(n):
+        mode = rng.choice(["hooks", "hooks", "functorch"])
+        B, T = rng.randint(2, 4), rng.randint(2, 4)
+        if i % 2 == 0:
+            heads = rng.choice([2, 2, 3])
+            E = heads * rng.randint(1, 2)
+            layers = [{"t": "MHA", "E": E, "heads": heads, "bias": rng.random() < 0.8, "bias_kv": rng.random() < 0.3, "zero_attn": rng.random() < 0.2, "kpm": rng.random() < 0.7},
+                      {"t": "Linear", "in": E, "out": 2, "bias": True}]
+            spec = {"mode": mode, "batch_first": False, "reduction": rng.choice(["mean", "sum"]), "B": B, "seed": rng.randrange(10**6), "kind": "seq", "shape": [T, E], "layers": layers}
+        else:
+            F, h = rng.randint(1, 3), rng.randint(1, 3)
+            bid = rng.random() < 0.6
+            layers = [{"t": "RNN", "cell": rng.choice(["lstm", "gru", "rnn"]), "in": F, "hidden": h, "layers": rng.choice([1, 2]), "bidir": bid, "bias": rng.random() < 0.8},
+                      {"t": "Linear", "in": h * (2 if bid else 1), "out": 2, "bias": True}]
+            spec = {"mode": mode, "batch_first": rng.random() < 0.5, "reduction": rng.choice(["mean", "sum"]), "B": B, "seed": rng.randrange(10**6), "kind": "seq", "shape": [T, F], "layers": layers}
+        ctx.case(A.features(spec), nontrivial=True, sample=None, kind="search:dedicated:" + layers[0]["t"])
+        try:
+            res = A.oracle(spec)
+        except A.Rejected as e:
+            if "reference inconsistent" in str(e):
+                # the model consists of an Opacus DP layer and a Linear only: if its batch gradient is not the sum of the
+                # gradients of the samples run alone, the DP layer itself mixes the samples of a batch – then no
+                # per-sample gradient can equal "the gradient of the sample taken alone"
+                ctx.property_failure(f"C01:dp-layer-mixes-samples:{layers[0]['t']}:{layers[0].get('cell', 'mha')}",
+                                     f"unwrapped model [{layers[0]}] + Linear: {e}", {"failing_input": spec})
+            else:
+                ctx.count("search:rejected:dedicated:" + str(e)[:40])
+            continue
+        ctx.count("layer:" + layers[0]["t"])
+        if res:
+            ctx.property_failure(res[0], res[1], dict(res[2], failing_input=spec))
+
+
 def machine_oracle(spec):
     try:
         return A.oracle(spec)
@@ -379,6 +417,7 @@ def run(ctx):
             ctx.count("witness:" + did + (":fails" if res else ":holds"))
             if res:
                 ctx.property_failure(res[0], res[1], dict(res[2], failing_input=spec, lean_witness=WITNESS.get(did)))
+        run_attention_and_rnn(ctx, ctx.n(16, 300))
         run_machine(ctx, ctx.n(60, 1500))
         run_hook_cover(ctx, ctx.n(80, 2000))
         run_search(ctx, ctx.n(250, 6000))
